@@ -19,6 +19,7 @@ import (
 	"fmt"
 	"os"
 	"path/filepath"
+	"strings"
 	"time"
 
 	"github.com/polynetwork/poly/common"
@@ -319,24 +320,36 @@ func (c *c06Run) checkState(tree *merkle.CompactMerkleTree, n int, file string) 
 func (c *c06Run) universeRun(dir string, store string, policy func(n int) string) {
 	file := ""
 	var hs merkle.HashStore
-	open := func(size int) {
+	// open: a hash file that this very code wrote for `size` leaves must be accepted again at that size; a refusal ends
+	// this life (reported), the other lives go on and the summary is printed in any case
+	open := func(size int) bool {
 		if store == "mem" {
 			hs = merkle.NewMemHashStore()
-			return
+			return true
 		}
 		var err error
-		hs, err = merkle.NewFileHashStore(file, uint32(size))
-		if err != nil {
-			c.violate("hash-store-reopen-failed", size, 0, size, obj{"err": err.Error()})
-			vio.Flush()
-			os.Exit(0)
+		var st merkle.HashStore
+		pn := vio.Safe(func() { st, err = merkle.NewFileHashStore(file, uint32(size)) })
+		if pn != "" || err != nil || st == nil {
+			fi, _ := os.Stat(file)
+			var flen int64 = -1
+			if fi != nil {
+				flen = fi.Size()
+			}
+			c.violate("file-reopen-refused", size, 0, size, obj{"err": fmt.Sprint(err), "panic": pn, "file_hashes": flen / 32,
+				"what": "NewFileHashStore refuses the node file written by the tree itself for exactly this size"})
+			return false
 		}
+		hs = st
+		return true
 	}
 	if store != "mem" {
 		file = filepath.Join(dir, c.universe+".db")
 		os.Remove(file)
 	}
-	open(0)
+	if !open(0) {
+		return
+	}
 	tree := merkle.NewTree(0, nil, hs)
 	for n := 0; ; n++ {
 		c.checkState(tree, n, file)
@@ -349,7 +362,9 @@ func (c *c06Run) universeRun(dir string, store string, policy func(n int) string
 			if store != "mem" {
 				frontier := append([]common.Uint256{}, tree.Hashes()...)
 				hs.Close()
-				open(n)
+				if !open(n) {
+					return
+				}
 				tree = merkle.NewTree(uint32(n), frontier, hs)
 			}
 		case "rewrap":
@@ -466,7 +481,9 @@ func (c *c06Run) surplusRun(dir string, s, T int, alt [][]byte) {
 	file := filepath.Join(dir, c.universe+".db")
 	os.Remove(file)
 	hs, err := merkle.NewFileHashStore(file, 0)
-	vio.Must(err)
+	if err != nil {
+		vio.Fatal("cannot create an empty hash file: %v", err)
+	}
 	tree := merkle.NewTree(0, nil, hs)
 	var frontier []common.Uint256
 	for n := 0; n < T; n++ {
@@ -476,11 +493,14 @@ func (c *c06Run) surplusRun(dir string, s, T int, alt [][]byte) {
 		tree.Append(c.data[n])
 	}
 	hs.Close()
-	hs, err = merkle.NewFileHashStore(file, uint32(s))
-	if err != nil {
-		c.violate("hash-store-reopen-failed", s, 0, T, obj{"err": err.Error()})
+	// the file holds the nodes of T > s leaves (stale tail): reopening at s must be accepted and continue correctly
+	var st merkle.HashStore
+	pn := vio.Safe(func() { st, err = merkle.NewFileHashStore(file, uint32(s)) })
+	if pn != "" || err != nil || st == nil {
+		c.violate("file-reopen-refused", s, 0, T, obj{"err": fmt.Sprint(err), "panic": pn, "what": "node file with a stale tail (written for " + fmt.Sprint(T) + " leaves) refused at a smaller size"})
 		return
 	}
+	hs = st
 	c.data = alt
 	tree = merkle.NewTree(uint32(s), frontier, hs)
 	for n := s; ; n++ {
@@ -492,6 +512,21 @@ func (c *c06Run) surplusRun(dir string, s, T int, alt [][]byte) {
 		tree.Append(c.data[n])
 	}
 	hs.Close()
+}
+
+// panicInPoly: does the innermost non-runtime frame of a captured panic belong to the code under test?
+func panicInPoly(p string) bool {
+	i := strings.Index(p, "\npanic(")
+	if i < 0 {
+		return strings.Contains(p, "github.com/polynetwork/poly/")
+	}
+	for _, ln := range strings.Split(p[i+1:], "\n")[1:] {
+		if ln == "" || ln[0] == '\t' || strings.HasPrefix(ln, "runtime.") || strings.HasPrefix(ln, "panic(") {
+			continue
+		}
+		return strings.HasPrefix(ln, "github.com/polynetwork/poly/")
+	}
+	return false
 }
 
 func c06(args []string) {
@@ -511,7 +546,13 @@ func c06(args []string) {
 		env := &termeval.Env{Dat: func(i int) []byte { return data[i] }, Fresh: freshFn(seed)}
 		c := &c06Run{tab: evalC06(rows, env), data: data, universe: name, distinct: distinct, drift: drift, maxN: maxN,
 			h32: kind == "h32", everyT: tier == "quick" || maxN <= 40, reportCap: rep}
-		f(c)
+		// a panic of the code under test inside a life is a finding of that life; the next lives still run
+		if pn := vio.Safe(func() { f(c) }); pn != "" {
+			if !panicInPoly(pn) {
+				vio.Fatal("driver bug in life %s: %s", name, pn)
+			}
+			c.violate("tree-operation-panics", -1, -1, -1, obj{"panic": pn})
+		}
 		evals += c.evals
 		rep = c.reportCap
 	}
